@@ -895,4 +895,95 @@ theorem lex_group (st : PState) (g : OutGroup) (rest : List Char) (cur : Char) (
       · exact emitItems_inv _ _ hwf.good hinv.inv
       · rw [h1]
 
+def WfGroups (gs : List OutGroup) : Prop := ∀ g ∈ gs, WfGroup g
+
+theorem renderFrom_cons (st : PState) (g : OutGroup) (r : List OutGroup) :
+    renderFrom st (g :: r) = (emitGroup st g).2 ++ renderFrom (emitGroup st g).1 r := rfl
+
+/-- what a group list is printed as can never extend the number printed before it -/
+theorem stopAfter_render (st : PState) (gs : List OutGroup) (hwf : WfGroups gs) (hinv : PInv st) :
+    StopAfter st (renderFrom st gs) := by
+  intro hpd
+  cases gs with
+  | nil => intro c r h; simp [renderFrom] at h
+  | cons g r =>
+    rw [renderFrom_cons]
+    have hg := hwf g (by simp)
+    cases hz : (g.k == Kind.Z) with
+    | true =>
+      intro c t h
+      simp only [emitGroup, hz, if_true, List.cons_append, List.cons.injEq] at h
+      rw [← h.1]; exact ⟨by decide, by decide, by simp⟩
+    | false =>
+      have hkz : g.k ≠ .Z := by intro e; rw [e] at hz; exact absurd hz (by decide)
+      generalize hst0 : (if g.force then { st with cmd := none } else st : PState) = st0
+      have heg : (emitGroup st g).2 = (emitCmd st0 g.k g.rel).2 ++ (emitItems (emitCmd st0 g.k g.rel).1 g.items).2 := by
+        simp only [emitGroup, hz, Bool.false_eq_true, if_false, hst0]
+      rw [heg]
+      cases hnl : needLetter st0 g.k g.rel with
+      | true =>
+        intro c t h
+        simp only [emitCmd, hnl, if_true, List.cons_append, List.nil_append, List.cons.injEq] at h
+        obtain ⟨_, _, _, h4, h5, h6, _⟩ := letter_facts g.k g.rel
+        rw [← h.1]; exact ⟨h4, h5, fun _ => h6⟩
+      | false =>
+        have hforce : g.force = false := by
+          cases hfo : g.force with
+          | false => rfl
+          | true =>
+            rw [hfo] at hst0
+            simp only [if_true] at hst0
+            rw [← hst0] at hnl
+            simp [needLetter] at hnl
+        have hst : st0 = st := by rw [← hst0, hforce]; rfl
+        subst hst
+        have hec : emitCmd st0 g.k g.rel = (st0, []) := by
+          simp only [emitCmd, hnl, Bool.false_eq_true, if_false]
+        rw [hec]
+        simp only [List.nil_append]
+        have hlen := hg.len hkz
+        have hpos := arity_pos g.k hkz
+        cases hit : g.items with
+        | nil => rw [hit] at hlen; simp at hlen; omega
+        | cons it r2 =>
+          rw [emitItems_cons]
+          simp only [List.append_assoc]
+          exact stopAfter_emitItem st0 it _ (fun s e => hg.good s (by rw [hit, e]; simp)) hinv hpd
+
+theorem emitCmd_inv (st0 : PState) (k : Kind) (rel : Bool) (h : PInv st0) : PInv (emitCmd st0 k rel).1 := by
+  cases hnl : needLetter st0 k rel with
+  | true => simp only [emitCmd, hnl, if_true]; intro h'; exact absurd h' (by simp)
+  | false => simp only [emitCmd, hnl, Bool.false_eq_true, if_false]; exact h
+
+theorem emitGroup_inv (st : PState) (g : OutGroup) (hwf : WfGroup g) (hinv : PInv st) : PInv (emitGroup st g).1 := by
+  cases hz : (g.k == Kind.Z) with
+  | true => simp only [emitGroup, hz, if_true]; intro h; exact absurd h (by decide)
+  | false =>
+    simp only [emitGroup, hz, Bool.false_eq_true, if_false]
+    apply emitItems_inv _ _ hwf.good
+    apply emitCmd_inv
+    cases g.force
+    · exact hinv
+    · exact hinv
+
+/-- **the lexer reads back a printed group list** (any start state related to the lexer context) -/
+theorem lex_groups : ∀ (gs : List OutGroup) (st : PState) (cur : Char) (k0 f : Nat),
+    WfGroups gs → LInv st cur k0 → (renderFrom st gs).length < f →
+    lexGo f cur k0 (renderFrom st gs) = some (groupsToks st gs) := by
+  intro gs
+  induction gs with
+  | nil =>
+    intro st cur k0 f _ _ hf
+    obtain ⟨f0, rfl⟩ : ∃ f0, f = f0 + 1 := ⟨f - 1, by simp [renderFrom] at hf; omega⟩
+    simp [renderFrom, groupsToks, lexGo]
+  | cons g r ih =>
+    intro st cur k0 f hwf hinv hf
+    rw [renderFrom_cons] at hf ⊢
+    have hg := hwf g (by simp)
+    have hr : WfGroups r := fun g' h' => hwf g' (by simp [h'])
+    have hstop := stopAfter_render (emitGroup st g).1 r hr (emitGroup_inv st g hg hinv.inv)
+    obtain ⟨f1, cur1, k1, hf1, hinv1, h1⟩ := lex_group st g _ cur k0 f hg hinv hstop hf
+    rw [h1, ih _ cur1 k1 f1 hr hinv1 hf1]
+    simp [groupsToks]
+
 end Verif.Proofs.SvgLex
